@@ -4,6 +4,7 @@
 # 2. runs the given property checks against the worktree (VERIF_REPO) and records their exit codes
 # 3. stores patch, demo and meta.json under /verif/seeded/<name>/
 WT=$1; NAME=$2; shift 2
+TMPD=$(mktemp -d /tmp/seedtest.XXXXXX); trap 'rm -rf $TMPD' EXIT
 export GOFLAGS=-mod=mod GOPROXY=off GOSUMDB=off GOTOOLCHAIN=local
 cd "$WT" || exit 2
 PATCH=_seed/patch.diff
@@ -27,29 +28,29 @@ DEMORUN=$(grep -o 'func Test[A-Za-z0-9_]*' $DEMO | sed 's/func //' | paste -sd'|
 git checkout -q -- . ; git apply $PATCH || { echo "patch does not apply"; exit 2; }
 cp $DEMO $DEMOPKG/ 2>/dev/null
 echo "== module $MOD demo $DEMONAME in $DEMOPKG"
-( cd $MOD && go vet ./... >/dev/null 2>&1; unshare -rn sh -c "ip link set lo up; go test -vet=off -count=1 ./... 2>&1" | grep -v "^ok\|no test files" | grep -v "$DEMOALL" | grep "^--- FAIL\|^FAIL" | grep -v "TestValidFlags" | head ) > /tmp/seed_base.txt
-BASE_FAIL_OTHER=$(grep -c "^--- FAIL" /tmp/seed_base.txt)
+( cd $MOD && go vet ./... >/dev/null 2>&1; unshare -rn sh -c "ip link set lo up; go test -vet=off -count=1 ./... 2>&1" | grep -v "^ok\|no test files" | grep -v "$DEMOALL" | grep "^--- FAIL\|^FAIL" | grep -v "TestValidFlags" | head ) > $TMPD/seed_base.txt
+BASE_FAIL_OTHER=$(grep -c "^--- FAIL" $TMPD/seed_base.txt)
 # the repository's own test_grpc / deadline tests are timing-sensitive on a loaded machine: a failure
 # there is re-run (up to twice); only a test that fails every time counts as broken by the change
 for retry in 1 2; do
   [ "$BASE_FAIL_OTHER" -gt 0 ] || break
-  ( cd $MOD && unshare -rn sh -c "ip link set lo up; go test -vet=off -count=1 ./... 2>&1" | grep -v "^ok\|no test files" | grep -v "$DEMOALL" | grep "^--- FAIL\|^FAIL" | grep -v "TestValidFlags" | head ) > /tmp/seed_base_retry.txt
-  N=$(grep -c "^--- FAIL" /tmp/seed_base_retry.txt)
-  if [ "$N" -lt "$BASE_FAIL_OTHER" ]; then BASE_FAIL_OTHER=$N; cp /tmp/seed_base_retry.txt /tmp/seed_base.txt; fi
+  ( cd $MOD && unshare -rn sh -c "ip link set lo up; go test -vet=off -count=1 ./... 2>&1" | grep -v "^ok\|no test files" | grep -v "$DEMOALL" | grep "^--- FAIL\|^FAIL" | grep -v "TestValidFlags" | head ) > $TMPD/seed_base_retry.txt
+  N=$(grep -c "^--- FAIL" $TMPD/seed_base_retry.txt)
+  if [ "$N" -lt "$BASE_FAIL_OTHER" ]; then BASE_FAIL_OTHER=$N; cp $TMPD/seed_base_retry.txt $TMPD/seed_base.txt; fi
 done
-( cd $DEMOPKG && go test -vet=off -count=1 -run "^($DEMORUN)\$" . 2>&1 | tail -3 ) > /tmp/seed_demo_with.txt
-WITH=$(grep -c "^FAIL\|--- FAIL" /tmp/seed_demo_with.txt)
+( cd $DEMOPKG && go test -vet=off -count=1 -run "^($DEMORUN)\$" . 2>&1 | tail -3 ) > $TMPD/seed_demo_with.txt
+WITH=$(grep -c "^FAIL\|--- FAIL" $TMPD/seed_demo_with.txt)
 git apply -R $PATCH
-( cd $DEMOPKG && go test -vet=off -count=1 -run "^($DEMORUN)\$" . 2>&1 | tail -3 ) > /tmp/seed_demo_without.txt
-WITHOUT_OK=$(grep -c "^ok" /tmp/seed_demo_without.txt)
+( cd $DEMOPKG && go test -vet=off -count=1 -run "^($DEMORUN)\$" . 2>&1 | tail -3 ) > $TMPD/seed_demo_without.txt
+WITHOUT_OK=$(grep -c "^ok" $TMPD/seed_demo_without.txt)
 git apply $PATCH
 echo "existing tests failing besides the demo: $BASE_FAIL_OTHER ; demo fails with change: $WITH ; demo passes without: $WITHOUT_OK"
-cat /tmp/seed_base.txt | head -5
+cat $TMPD/seed_base.txt | head -5
 RES=""
 for P in "$@"; do
-  ( cd /verif && VERIF_REPO=$WT bin/symgo check -prop $P -tier quick > /tmp/seed_check_$P.log 2>&1 ); RC=$?
-  V=$(grep -c "^VIOLATION" /tmp/seed_check_$P.log)
-  echo "check $P exit=$RC violations=$V : $(grep '^  ' /tmp/seed_check_$P.log | head -2 | cut -c1-200 | tr '\n' '|')"
+  ( cd /verif && VERIF_REPO=$WT bin/symgo check -prop $P -tier quick > $TMPD/seed_check_$P.log 2>&1 ); RC=$?
+  V=$(grep -c "^VIOLATION" $TMPD/seed_check_$P.log)
+  echo "check $P exit=$RC violations=$V : $(grep '^  ' $TMPD/seed_check_$P.log | head -2 | cut -c1-200 | tr '\n' '|')"
   RES="$RES\"$P\": {\"exit\": $RC, \"violations\": $V},"
 done
 mkdir -p /verif/seeded/$NAME
